@@ -60,6 +60,23 @@ def directed(run):
                                     ops=[{"op": "get_assertion", "req": ga_req(rng, allow=[cid], up=up, uv=uv)},
                                          {"op": "get_assertion", "req": ga_req(rng, allow=[cid], up=True, uv=uv)}],
                                     user={"script": [{"presence": up, "verification": uv}, {"presence": True, "verification": uv}]}))
+    # descriptor lists whose entries carry a `type` other than "public-key" (allow and exclude lists, held and unknown ids), and a
+    # pinAuth that is present with 0, 1, 16 or 32 bytes: the request must reach the ceremony as it is - same answer, same store effect
+    held = bytes([0x5B]) * 16
+    for kind in ("option", "memory", "ref"):
+        content = [mk_passkey(rng, "example.com", cred_id=held, counter=1, keyidx=0)]
+        for lst, tys in (([held], [False]), ([bytes(16)], [False]), ([bytes(16), held], [False, True]), ([held, bytes(16)], [False, False]), ([bytes(16)], [True])):
+            q = ga_req(rng, allow=lst); q["allow_ty"] = tys
+            q2 = mc_req(rng, exclude=lst); q2["exclude_ty"] = tys
+            scs.append(scenario(store_kind=kind, content=content, config={"counter": True},
+                                ops=[{"op": "get_assertion", "req": q}, {"op": "make_credential", "req": q2}],
+                                user={"script": [{"presence": True, "verification": True}] * 2}))
+        for n in (0, 1, 16, 32):
+            q = ga_req(rng, allow=[held], pin_auth=True); q["pin_auth_len"] = n
+            q2 = mc_req(rng, pin_auth=True); q2["pin_auth_len"] = n
+            scs.append(scenario(store_kind=kind, content=content, config={"counter": True},
+                                ops=[{"op": "make_credential", "req": q2}, {"op": "get_assertion", "req": q}],
+                                user={"script": [{"presence": True, "verification": True}] * 2}))
     for n in (64, 65, 100, 300):
         for ch in ("a", "\u00e9", "\u6f22"):
             name = (ch * n)[: n if ch == "a" else n // len(ch.encode("utf-8"))]
